@@ -18,11 +18,11 @@ Variable tx : N -> N.
 Variable mt : metrics.
 Variable bursts : list (N * list (N * N)).
 
-Notation send := (send_message current tx mt).
-Notation drain := (Model.drain current tx mt).
-Notation offer := (Model.offer current tx mt).
-Notation step := (Model.step current tx mt bursts).
-Notation steps := (Model.steps current tx mt bursts).
+Notation send := (send_message current enc_ev tx mt).
+Notation drain := (Model.drain current enc_ev tx mt).
+Notation offer := (Model.offer current enc_ev tx mt).
+Notation step := (Model.step current enc_ev tx mt bursts).
+Notation steps := (Model.steps current enc_ev tx mt bursts).
 Notation pids := (pending_ids bursts).
 
 Definition mu (s : st) : nat :=
@@ -59,7 +59,8 @@ Lemma mu_fold offs : forall s, (mu (fold_left offer offs s) <= mu s + 2 * length
 Proof.
   induction offs as [|o offs IH]; intros s; cbn [fold_left length]; [lia|].
   etransitivity; [apply IH|]. unfold Model.offer.
-  assert (H : (mu (sample (send s (fst o) (snd o) false)) <= mu s + 2)%nat) by apply mu_send. lia.
+  assert (H : (mu (sample (send (sample s) (fst o) (snd o) false)) <= mu (sample s) + 2)%nat) by apply mu_send.
+  change (mu (sample s)) with (mu s) in H. lia.
 Qed.
 
 Lemma mu_step s s' : SI (q s) -> step s = Some s' -> (mu s' < mu s)%nat.
@@ -74,12 +75,11 @@ Proof.
     destruct (dec_ev (epay e)); cbn [app flat_map length]; rewrite ?app_length; lia. }
   destruct (dec_ev (epay e)) as [|m|k]; cbn [Model.dispatch length] in *.
   - unfold Model.unbusy. cbn [drain_all current].
-    match goal with |- (mu (Model.drain _ _ _ ?k ?s0) < _)%nat => assert (H2 : (mu (drain k s0) <= mu s0)%nat) by apply mu_drain;
+    match goal with |- (mu (Model.drain _ _ _ _ ?k ?s0) < _)%nat => assert (H2 : (mu (drain k s0) <= mu s0)%nat) by apply mu_drain;
       assert (H3 : mu s0 = mu s1) by reflexivity end. lia.
   - unfold handle_exit. change (mu (sample (emit s1 (IDeliver m (now s1))))) with (mu s1). lia.
   - unfold Model.handle_wake, burst_ids in *. destruct (nth_error bursts (N.to_nat k)) as [[t offs]|]; [|lia].
-    rewrite map_length in H1. pose proof (mu_fold offs (sample s1)) as H2.
-    change (mu (sample s1)) with (mu s1) in H2. lia.
+    rewrite map_length in H1. pose proof (mu_fold offs s1) as H2. lia.
 Qed.
 
 Lemma steps_stuck n s : step s = None -> steps n s = s.
@@ -99,13 +99,13 @@ Proof.
 Qed.
 
 Lemma len_sched bs : forall q0 k, s_tcur q0 = 0 ->
-  length (pend (sched_wakes q0 k bs)) = (length (pend q0) + length bs)%nat.
+  length (pend (sched_wakes enc_ev q0 k bs)) = (length (pend q0) + length bs)%nat.
 Proof.
   induction bs as [|[t offs] bs IH]; intros q0 k H0; cbn [sched_wakes length]; [lia|].
   rewrite IH by (rewrite qadd_tcur; exact H0). rewrite len_qadd by lia. lia.
 Qed.
 
-Lemma mu_init oracle : mu (init bursts oracle) = (length bursts + 2 * length (all_ids bursts))%nat.
+Lemma mu_init oracle : mu (init enc_ev bursts oracle) = (length bursts + 2 * length (all_ids bursts))%nat.
 Proof.
   unfold mu. cbn [init ch q idle_chan buffer length]. rewrite len_sched by reflexivity.
   pose proof (account tx mt bursts oracle 0) as H. cbv zeta in H. cbn [Model.steps init log ch q idle_chan buffer] in H.
@@ -146,13 +146,13 @@ Qed.
 
 Theorem run_completes vr_tx mt oracle offs :
   let bs := group offs 0 in
-  let s := steps current vr_tx mt bs (fuel_for offs) (init bs oracle) in
-  step current vr_tx mt bs s = None /\ pend (q s) = [] /\ busy (ch s) = false /\ buffer (ch s) = [] /\
+  let s := steps current enc_ev vr_tx mt bs (fuel_for offs) (init enc_ev bs oracle) in
+  step current enc_ev vr_tx mt bs s = None /\ pend (q s) = [] /\ busy (ch s) = false /\ buffer (ch s) = [] /\
   Permutation (ids_from 0 (length offs)) (delivered (log s) ++ dropped_busy (log s) ++ dropped_full (log s)) /\
   NoDup (delivered (log s) ++ dropped_busy (log s) ++ dropped_full (log s)).
 Proof.
   cbv zeta. set (bs := group offs 0). destruct (group_spec offs 0) as [Eids Hlen]. fold bs in Eids, Hlen.
-  assert (Hs : step current vr_tx mt bs (steps current vr_tx mt bs (fuel_for offs) (init bs oracle)) = None).
+  assert (Hs : step current enc_ev vr_tx mt bs (steps current enc_ev vr_tx mt bs (fuel_for offs) (init enc_ev bs oracle)) = None).
   { apply steps_done; [apply Good_init|]. rewrite (mu_init vr_tx mt), Eids. unfold fuel_for.
     rewrite ids_from_length. lia. }
   pose proof (Good_reachable vr_tx mt bs oracle (fuel_for offs)) as HG.
